@@ -284,4 +284,24 @@ example : CacheDb { cache := { state := [(1, [("k", some "v"), ("gone", some "")
       · cases hk
   · cases hm
 
+/-- **the hypothesis comes back with every committed block**: start a block on a ledger without account objects whose storage cache
+agrees with the database (an empty or reopened ledger, or the ledger after the previous commit), make any sequence of storage writes
+and deletes, flush, commit: the storage cache agrees with the database again — so the eviction and reopen theorems above apply after
+every block of a history, "no matter how many commits, cache evictions or reopen cycles lie in between" -/
+theorem C13_commit_reestablishes_cache_coherence (H : RootPre → String) (l l1 : L) (h : Nat) (hno : l.accounts = []) (hD : CacheDb l)
+    (ws : List SWrite) (hc : commit (flush H (writes ws l)).1 h (flush H (writes ws l)).2 = some l1) : CacheDb l1 := by
+  have hW : CacheDb (writes ws l) := by
+    have hcd : (writes ws l).cache = l.cache ∧ (writes ws l).db = l.db := by
+      unfold writes
+      exact foldl_inv (fun x : L => x.cache = l.cache ∧ x.db = l.db) _
+        (fun s w hs => ⟨(setState_spec s w.addr w.key w.val).cache.trans hs.1, (setState_spec s w.addr w.key w.val).db.trans hs.2⟩) ws l ⟨rfl, rfl⟩
+    intro a m k v hm hk
+    rw [hcd.1] at hm
+    rw [hcd.2]
+    exact hD a m k v hm hk
+  exact commit_establishes_cacheDb H (writes ws l) l1 h ((ObjCoh.of_no_objects l hno).writes ws) hW hc
+
+/-- an empty ledger meets it -/
+example : CacheDb ({} : L) := by intro a m k v hm _; simp [KV.get] at hm
+
 end Bxh.Props.C13
